@@ -188,6 +188,15 @@ impl World {
             }
             _ => {}
         }
+        if !self.on(C02) && !self.on(C05) && !transient {
+            let b = &self.searchers[idx].board;
+            if !hidden_consistent(b, &Full::of(b)) {
+                // see check_invariants: not this property's business, and not a board to go on with
+                self.searchers.remove(idx);
+                self.stats.hit("note.searcher-dropped-at-inconsistent-hidden-state");
+                return Ok(Exec::Skipped);
+            }
+        }
         // Everything else needs a valid board, room on the stack and node budget.
         if transient || self.searchers[idx].stack.len() >= MAX_DEPTH || self.searchers[idx].nodes >= 300 {
             return Ok(Exec::Skipped);
